@@ -23,7 +23,7 @@ pub fn honest_pool() -> &'static Vec<Entry> {
     P.get_or_init(|| {
         let mut v = vec![];
         let mut seed = [7u8; 32];
-        for i in 0..96usize {
+        for i in 0..300usize {
             seed = eddsa::sha512(&[&seed])[..32].try_into().unwrap();
             if i % 3 == 2 {
                 // several messages under the same key
@@ -130,6 +130,67 @@ pub fn batch(sizes: Vec<usize>) -> BoxedStrategy<Req> {
         }).boxed()
 }
 
+/// Cancellation pairs at structured index distances: S_i + e and S_j - e (or S_i <-> S_j swapped) with
+/// j = i + d for d in powers of two and other regular strides. Each modified entry is invalid on its
+/// own, so the batch must be rejected; it can only pass if the per-entry coefficients z_i, z_j coincide
+/// (e.g. coefficients reused with some period) - one pair per batch so that nothing else can mask it.
+pub fn cancellation() -> BoxedStrategy<Req> {
+    let np = honest_pool().len();
+    (prop::sample::select(vec![2usize, 3, 5, 8, 17, 33, 65, 66, 96, 129, 130, 190, 257]), any::<usize>(), prop::sample::select(vec![1usize, 2, 3, 4, 7, 8, 16, 32, 64, 128, 256]), 1u64..1000, any::<bool>(), any::<usize>())
+        .prop_map(move |(n, i, d, e, swap, start)| {
+            // distinct pool entries (n <= pool size)
+            let mut v: Vec<Entry> = (0..n).map(|k| honest_pool()[(start % np + k) % np].clone()).collect();
+            let d = if d >= n { 1 + d % (n - 1).max(1) } else { d };
+            let i = i % n;
+            let j = (i + d) % n;
+            if i != j {
+                if swap {
+                    let (si, sj): ([u8; 32], [u8; 32]) = (v[i].sig[32..].try_into().unwrap(), v[j].sig[32..].try_into().unwrap());
+                    v[i].sig[32..].copy_from_slice(&sj);
+                    v[j].sig[32..].copy_from_slice(&si);
+                } else {
+                    let ee = Sc::from_u64(e);
+                    let si = Sc::from_bytes_mod_order(&v[i].sig[32..].try_into().unwrap()).add(&ee);
+                    let sj = Sc::from_bytes_mod_order(&v[j].sig[32..].try_into().unwrap()).sub(&ee);
+                    v[i].sig[32..].copy_from_slice(&si.to_bytes());
+                    v[j].sig[32..].copy_from_slice(&sj.to_bytes());
+                }
+            }
+            let mut r = encode(&v, 0, 1);
+            // remember which two entries were modified (extra argument, ignored by the executor)
+            r.a.push(vec![(i & 0xff) as u8, (i >> 8) as u8, (j & 0xff) as u8, (j >> 8) as u8]);
+            r
+        }).boxed()
+}
+
+/// oracle for `cancellation`: the two modified entries are checked with the model's single-verification
+/// predicate (all other entries are untouched pool entries, valid by construction and by the self-check
+/// of the pool); the batch must be rejected iff one of them is invalid
+pub fn oracle_cancellation(req: &Req, got: &Resp) -> Result<(), String> {
+    let idx = &req.a[5];
+    let (i, j) = (idx[0] as usize | (idx[1] as usize) << 8, idx[2] as usize | (idx[3] as usize) << 8);
+    // parse messages
+    let n = u16::from_le_bytes([req.a[0][0], req.a[0][1]]) as usize;
+    let mut msgs: Vec<&[u8]> = vec![];
+    let mut p = 0usize;
+    for _ in 0..n {
+        let l = u16::from_le_bytes([req.a[1][p], req.a[1][p + 1]]) as usize;
+        msgs.push(&req.a[1][p + 2..p + 2 + l]);
+        p += 2 + l;
+    }
+    let entry_ok = |k: usize| -> bool {
+        let sig: [u8; 64] = req.a[2][64 * k..64 * k + 64].try_into().unwrap();
+        let pk: [u8; 32] = req.a[3][32 * k..32 * k + 32].try_into().unwrap();
+        eddsa::verify(&pk, &[], msgs[k], &sig, eddsa::SCheck::Canonical)
+    };
+    let want = if i == j { 1u8 } else { (entry_ok(i) && entry_ok(j)) as u8 };
+    match got {
+        Resp::Ok(b) if b.len() == 1 && b[0] == want => Ok(()),
+        Resp::Ok(b) if b.len() == 1 => Err(format!("verify_batch returned {} for a batch of {} honest entries in which entries {} and {} carry compensating corruptions of S (each fails single verification: {})", if b[0] == 1 { "Ok" } else { "Err" }, n, i, j, want == 0)),
+        g => Err(format!("sig.batch: {}", g.short())),
+    }
+}
+
 const BOUNDARY: [usize; 9] = [0, 1, 2, 94, 95, 96, 189, 190, 400];
 
 pub fn classify(r: &Req, resp: &Resp) -> Vec<&'static str> {
@@ -159,7 +220,7 @@ pub fn classify(r: &Req, resp: &Resp) -> Vec<&'static str> {
     l
 }
 
-pub const RULE: &str = "batches of n in {0,1,2,3,8,33} (and one each of 94,95,96,190,250,400: Straus/Pippenger switch at 2n+1=190) drawn from a pool of honest entries (canonical torsion-free keys and R, mixed message lengths, several messages per key), with 0..3 corruptions (another honest key, message bit flip, another honest R, another valid S, the cancellation pair S_i+e / S_j-e, duplication), error classes (S+l, undecodable R, each kind of slice-length mismatch), permutation and repeated calls; oracle = conjunction of the model's single-verification predicate over the entries (error classes must give Err, never a panic or Ok); non-trivial = >=2 entries with a corruption, n on a regime boundary, an error-class input or a repeated call";
+pub const RULE: &str = "batches of n in {0,1,2,3,8,33} (and one each of 94,95,96,190,250,400: Straus/Pippenger switch at 2n+1=190) drawn from a pool of honest entries (canonical torsion-free keys and R, mixed message lengths, several messages per key), with 0..3 corruptions (another honest key, message bit flip, another honest R, another valid S, the cancellation pair S_i+e / S_j-e, duplication; and a dedicated family of single cancellation / swap pairs at structured index distances 1,2,3,4,7,8,16,32,64,128,256 in batches of 2..257 distinct honest entries), error classes (S+l, undecodable R, each kind of slice-length mismatch), permutation and repeated calls; oracle = conjunction of the model's single-verification predicate over the entries (error classes must give Err, never a panic or Ok); non-trivial = >=2 entries with a corruption, n on a regime boundary, an error-class input or a repeated call";
 
 pub fn checks(tier: Tier) -> Vec<Check> {
     vec![
@@ -170,6 +231,17 @@ pub fn checks(tier: Tier) -> Vec<Check> {
             exec: Box::new(crate::ops::exec),
             oracle: Box::new(crate::mops::oracle),
             classify: Box::new(classify),
+            rule: RULE,
+            exhaustive: false,
+            enumerate: None,
+        },
+        Check {
+            name: "C13.batch-cancellation-pairs".into(),
+            strategy: cancellation(),
+            cases: tier.scale(600, 30),
+            exec: Box::new(crate::ops::exec),
+            oracle: Box::new(oracle_cancellation),
+            classify: Box::new(|r: &Req, _: &Resp| { let n = r.a[2].len() / 64; if n > 64 { vec!["cancellation-pair-n>64"] } else { vec!["cancellation-pair"] } }),
             rule: RULE,
             exhaustive: false,
             enumerate: None,
